@@ -176,6 +176,10 @@ class Ctx:
                 dry["script"].append(True)
             self.refine(cond, d)
             return d
+        # a condition this path has already decided (a stored test result used twice) keeps its outcome: no second, independent fork
+        prev = self.decided(cond)
+        if prev is not None:
+            return prev
         i = len(self.trace)
         if i < len(self.prefix):
             d = self.prefix[i]
@@ -185,6 +189,24 @@ class Ctx:
         self.trace.append((cond, d, where))
         self.refine(cond, d)
         return d
+
+    def decided(self, cond) -> Optional[bool]:
+        """Outcome this path already has for cond (the same test, its negation, or one implied by the numeric decisions so far)."""
+        core, neg = cond, False
+        while isinstance(core, tuple) and core and core[0] == "not" and len(core) == 2:
+            core, neg = core[1], not neg
+        if isinstance(core, tuple) and core and core[0] in ("eq", "ne", "lt", "le", "gt", "ge", "isnone", "streq"):
+            for c, dprev, _ in self.trace:
+                cneg = False
+                while isinstance(c, tuple) and c and c[0] == "not" and len(c) == 2:
+                    c, cneg = c[1], not cneg
+                if c == core:
+                    return dprev if cneg == neg else not dprev
+            if core[0] in self._SIGNS and len(core) == 3 and isinstance(core[1], Rat) and isinstance(core[2], Rat):
+                kr = self.known_rel(core[0], core[1] - core[2])
+                if kr is not None:
+                    return kr != neg
+        return None
 
     def refine(self, cond, d):
         if not isinstance(cond, tuple) or not cond:
@@ -334,6 +356,10 @@ def val_key(v: Val, ctx: Optional[Ctx] = None):
             return ("series", v.name)
         if v.kind == "slice":
             return ("slice", val_key(v.base, ctx), v.lo, v.hi)
+        if v.kind == "concat":
+            return ("concat",) + tuple(val_key(x, ctx) for x in v.parts)
+        if v.kind == "range":
+            return ("range", v.lo, v.hi)
     if isinstance(v, FuncV):
         if v.func is not None:
             return ("func", v.func.qualname)
